@@ -5,5 +5,5 @@ CONSTANTS
   Kinds = {"lag", "fill", "clip"}
   CutLen = 6
   Elem <- ElemDef
-INVARIANTS Laws EmitMap
+INVARIANTS Laws ZeroSignFree EmitMap
 CHECK_DEADLOCK FALSE
